@@ -55,6 +55,7 @@ def run(chk):
     chk.section('yz_variant', yz_variant, mod)
     lemmas(chk)
     chk.section('frames', frames, mod)
+    native_stand_in(chk)
 
 
 def drop_contract(chk, mod):
@@ -501,6 +502,99 @@ def frames(chk, mod):
         chk.extra.setdefault('frame_runs', {})[fname] = {'paths': total, 'write_sites_executed': writes}
 
 
+# ---- bounded stand-in: the real functions against the documented construction ---------------------------------------------------------
+def native_failures(n, seed, limit=3):
+    """random configurations of the quantified domain: tilt 0 and 1e-12..1 rad, detectors in all directions, wavelength 0..100 angstrom,
+    |g| up to 100 m/s^2 in any direction, float64/float32 wavelength, m/mm and angstrom/nm units, scalar and array-valued operands"""
+    import numpy as np
+    import scipp as sc
+    import scipp.constants
+    import mpmath as mp
+    from vf.realrun import real_module
+    bl = real_module('conversion.beamline')
+    h, m = sc.constants.h.value, sc.constants.m_n.value
+    rng = np.random.default_rng(seed)
+    fails = []
+
+    def rot(v):     # a random rotation applied to the whole set-up (gravity in any direction)
+        return Q @ v
+    for i in range(n):
+        Q, _ = np.linalg.qr(rng.normal(size=(3, 3)))
+        gmag = float(rng.choice([9.80665, 1.62, 100.0, 1e-3, rng.uniform(0, 100)]))
+        tilt = float(rng.choice([0.0, 0.0, 10 ** rng.uniform(-12, 0), -10 ** rng.uniform(-12, 0)]))
+        L1 = 10 ** rng.uniform(-1, 2)
+        g = rot(np.array([0.0, -gmag, 0.0]))
+        b1 = rot(np.array([0.0, np.sin(tilt), np.cos(tilt)]) * L1)
+        if tilt == 0.0:
+            b1 = b1 - np.dot(b1, g) / np.dot(g, g) * g       # exactly horizontal up to the last bit
+        npix = int(rng.choice([0, 3]))
+        dirs = rng.normal(size=(max(npix, 1), 3))
+        b2 = np.array([rot(d / np.linalg.norm(d) * 10 ** rng.uniform(-1, 1.5)) for d in dirs])
+        lam_A = float(rng.choice([0.0, rng.uniform(0, 100), rng.uniform(0.5, 20)]))
+        wdt = str(rng.choice(['float64', 'float32']))
+        lu, wu = str(rng.choice(['m', 'mm'])), str(rng.choice(['angstrom', 'nm']))
+        lscale = {'m': 1.0, 'mm': 1e3}[lu]
+        wl_val = np.array(lam_A * {'angstrom': 1.0, 'nm': 0.1}[wu], dtype=wdt)
+        lam_m = float(wl_val) / {'angstrom': 1.0, 'nm': 0.1}[wu] * 1e-10        # the wavelength the function actually sees
+        kw = dict(incident_beam=sc.vector(b1 * lscale, unit=lu),
+                  scattered_beam=sc.vectors(dims=['pixel'], values=b2 * lscale, unit=lu) if npix else sc.vector(b2[0] * lscale, unit=lu),
+                  wavelength=sc.scalar(wl_val, unit=wu, dtype=wdt), gravity=sc.vector(g, unit='m/s^2'))
+        desc = {'id': f'case{i}', 'index': i, 'seed': seed, 'tilt_rad': tilt, 'g': gmag, 'wavelength': f'{float(wl_val)!r} {wu} {wdt}', 'length_unit': lu, 'pixels': npix}
+        orth = abs(np.dot(g, b1 * lscale)) <= 1e-10 * np.linalg.norm(g)
+        tol = 2e-5 if wdt == 'float32' else 1e-9
+        for fname in ('scattering_angles_with_gravity', 'scattering_angle_in_yz_plane'):
+            try:
+                r = getattr(bl, fname)(**kw)
+            except ValueError as e:
+                if fname == 'scattering_angle_in_yz_plane' and not orth:
+                    continue        # refuses beams that are not perpendicular to gravity
+                fails.append({**desc, 'function': fname, 'problem': f'raised ValueError: {e}'})
+                break
+            except Exception as e:  # noqa: BLE001
+                fails.append({**desc, 'function': fname, 'problem': f'raised {type(e).__name__}: {e}'})
+                break
+            if fname == 'scattering_angle_in_yz_plane' and not orth:
+                fails.append({**desc, 'function': fname, 'problem': 'accepted an incident beam that is not perpendicular to gravity'})
+                break
+            prob = None
+            for k in range(max(npix, 1)):
+                tt, phi, gamma, delta = reference(b1, b2[k], g, lam_m, h, m)
+                if fname == 'scattering_angle_in_yz_plane':
+                    got = {'gamma': r}
+                    want = {'gamma': gamma}
+                else:
+                    got = {'two_theta': r['two_theta'], 'phi': r['phi']}
+                    want = {'two_theta': tt, 'phi': phi}
+                for kx, var in got.items():
+                    val = float(var.values[k] if var.ndim else var.value)
+                    err = abs(mp.mpf(val) - want[kx])
+                    if kx == 'phi':
+                        err = min(err, abs(err - 2 * mp.pi))
+                        # the azimuth is ill-conditioned when the raised beam is (nearly) along the incident beam
+                        if float(mp.sin(tt)) < 1e-6:
+                            continue
+                    # inside the band 0 < |g.b1| <= 1e-10 |g| the optimised path may deviate by the tilt itself (see assumptions)
+                    slack = abs(tilt) * 4 if abs(tilt) <= 1e-9 else 0.0
+                    if str(var.unit) != 'rad' or str(var.dtype) != wdt:
+                        prob = f'{kx}: unit {var.unit}, dtype {var.dtype} (wavelength dtype {wdt})'
+                    elif not err <= tol + slack:
+                        prob = f'{kx} = {val!r}, documented construction {mp.nstr(want[kx], 17)} (abs error {mp.nstr(err, 3)} rad, drop {mp.nstr(delta, 5)} m)'
+            if prob:
+                fails.append({**desc, 'function': fname, 'problem': prob})
+                break
+        if len(fails) >= limit:
+            break
+    return fails
+
+
+def native_stand_in(chk):
+    n = 250 if chk.tier == 'quick' else 6000
+    fails = native_failures(n, 40 + chk.seed)
+    chk.bounded_check('documented-construction(random configurations)', 'real scattering_angles_with_gravity / scattering_angle_in_yz_plane vs the documented '
+                      'construction in 50-digit arithmetic', f'{n} random configurations: tilt 0 and 1e-12..1 rad, gravity up to 100 m/s^2 in any direction, '
+                      'wavelength 0..100 angstrom, float64/float32, m/mm, angstrom/nm, scalar and per-pixel detectors', n, fails)
+
+
 # ---- replay -----------------------------------------------------------------------------------------------------
 def reference(b1, b2, g, lam_m, h, m):
     """Documented construction with mpmath (SI inputs)."""
@@ -535,6 +629,11 @@ def replay(rec):
     h, m = sc.constants.h.value, sc.constants.m_n.value
     model = rec.get('model') or {}
     name = rec['obligation']
+    if '/bounded/documented-construction' in name:
+        f = rec.get('meta', {}).get('replay') or {}
+        fails = native_failures(int(f.get('index', 0)) + 1, int(f.get('seed', 40)), limit=10 ** 6)
+        hit = [x for x in fails if x['index'] == f.get('index')]
+        return {'reproduced': bool(hit), 'case': hit[:1]}
     cfgs = []
     # the solver's counter-model (SI = value * scale), if complete
     try:
